@@ -13,7 +13,8 @@ RULE = ("one logical chain x many physical layouts (blocks->files assignment: si
         "zeros / random bytes / foreign-magic blocks / unindexed real blocks; sparse offsets beyond 4 GiB; extra 'f','l','R','F','t' keys; "
         "extra directory entries; index as log only / several tables / several sessions / compacted; base heights up to millions; a quarter "
         "of the directories XOR-obfuscated; plus content kinds of the other checks - AuxPoW sections, spend histories, statistics "
-        "chains, hostile scripts, OP_RETURN payloads - x layouts x obfuscation x all five callbacks): real "
+        "chains, hostile scripts, OP_RETURN payloads - x layouts x obfuscation x --verify x ranges x index records that lose their "
+        "height x all five callbacks): real "
         "csvdump (+unspentcsvdump) run per layout; output must equal the model and be identical across layouts of the same chain; the H2 "
         "fetch log must name exactly the (file, offset) of the record of each height. "
         "distinct = (assignment, #files class, gaps, numbering, padding, sparse, extras, index style) signatures")
@@ -128,28 +129,35 @@ def combo_case(spec):
     lrng = random.Random("C03combolayout|%s|%s" % (spec["chain_seed"], spec["n"]))
     kw, desc, pl_index = layouts.make_layout(lrng, chain, coin, **spec["layout"])
     xor_key = bytes(lrng.randrange(0, 256) for _ in range(lrng.choice([8, 8, 5, 13]))) if spec.get("xor") else None
+    if spec.get("competitors"):
+        layouts.add_harmless_competitors(lrng, chain, coin, kw, count=3)
     work = harness.fresh(os.path.join(spec["work"], "c%d" % spec["n"]))
     d = os.path.join(work, "d")
     datadir.write_datadir(d, COINS[coin], xor_key=xor_key, **kw)
     binary = core.build(spec.get("profile", "release"))
     v, runs = [], 0
     start = 1 if spec.get("verify") else None
+    tip = chain[-1][0]
+    end = None
+    if spec.get("ranged") and tip >= 3:
+        start = lrng.randint(1, tip - 1) if (start or lrng.random() < 0.5) else start
+        end = lrng.choice([None, lrng.randint((start or 0) + 1, tip + 1)])
     for cbname in ["csvdump", "unspentcsvdump", "balances", "simplestats", "opreturn"]:
         dump = harness.fresh(os.path.join(work, "o"))
-        p = harness.run_cb(binary, d, coin, cbname, dump, start, None, verify=bool(spec.get("verify")), timeout=600)
+        p = harness.run_cb(binary, d, coin, cbname, dump, start, end, verify=bool(spec.get("verify")), timeout=600)
         runs += 1
         S = start or 0
         if cbname == "csvdump":
-            bad = oracles.check_csvdump(p, dump, chain, coin, S, None)
+            bad = oracles.check_csvdump(p, dump, chain, coin, S, end)
         elif cbname == "unspentcsvdump":
-            bad = oracles.check_unspent(p, dump, chain, coin, S, None)
+            bad = oracles.check_unspent(p, dump, chain, coin, S, end)
         elif cbname == "balances":
-            bad = oracles.check_balances(p, dump, chain, coin, S, None)
+            bad = oracles.check_balances(p, dump, chain, coin, S, end)
         elif cbname == "simplestats":
-            bad = oracles.check_stats(p, chain, coin, S, None)
+            bad = oracles.check_stats(p, chain, coin, S, end)
         else:
-            bad = oracles.check_opreturn(p, chain, coin, S, None)
-        v.extend(viol("combo:%s:%s" % (kind, sig), "%s [content=%s layout=%s xor=%s verify=%s coin=%s]" % (det, kind, desc, bool(xor_key), bool(spec.get("verify")), coin)) for sig, det in bad)
+            bad = oracles.check_opreturn(p, chain, coin, S, end)
+        v.extend(viol("combo:%s:%s" % (kind, sig), "%s [content=%s layout=%s xor=%s verify=%s range=%s..%s competitors=%s coin=%s]" % (det, kind, desc, bool(xor_key), bool(spec.get("verify")), start, end, bool(spec.get("competitors")), coin)) for sig, det in bad)
     shutil.rmtree(work, ignore_errors=True)
     return {"evaluations": runs, "violations": v, "counters": {"runs": runs, "combo_cases": 1, "combo_cases:" + kind: 1, "xor_obfuscated_layouts": 1 if xor_key else 0},
             "shapes": ["combo|%s|%s|xor%d|v%d" % (kind, desc["assign"], bool(xor_key), bool(spec.get("verify")))],
@@ -210,12 +218,12 @@ def plan(chk):
     lays = [dict(assign="round_robin", nfiles=3), dict(assign="random", nfiles=4, gaps="random"), dict(assign="reversed", nfiles=2, gaps="zeros"),
             dict(assign="interleaved2", nfiles=4, file_order="shuffled"), dict(assign="contiguous", nfiles=3, gaps="unindexed", sparse=True),
             dict(assign="one_per_file", nfiles=99, numbering="sparse", pad=0)]
-    for i in range(150 if chk.thorough else 20):
+    for i in range(300 if chk.thorough else 40):
         n += 1
         kind = kinds[i % 5]
         coin = ["namecoin", "dogecoin"][i % 2] if kind == "auxpow" else COIN_NAMES[(i * 3) % 8]
         specs.append(dict(case="combo", kind=kind, coin=coin, chain_seed=chk.seed * 1000 + i, n=n, layout=lays[i % len(lays)], xor=(i % 2 == 0),
-                          verify=(i % 3 == 0), profile="debug" if i % 7 == 0 else "release"))
+                          verify=(i % 3 == 0), ranged=(i % 4 in (1, 2)), competitors=(i % 5 in (0, 3)), profile="debug" if i % 7 == 0 else "release"))
     return specs
 
 
